@@ -102,6 +102,10 @@ pub struct CliCase {
     /// the output file(s) already exist with other, longer content (a re-run into the same path)
     #[serde(default)]
     pub preexisting: bool,
+    /// the injected fault is a path that can be opened but not written (a symlink to /dev/full: ENOSPC)
+    /// instead of a directory in the way; in single-file mode the output file itself is that path
+    #[serde(default)]
+    pub fault_devfull: bool,
 }
 
 fn mutk_by_name(n: &str) -> Option<MutK> {
@@ -207,7 +211,14 @@ impl CliCase {
     }
 
     pub fn brief(&self) -> String {
-        format!("{:?} {:?} {}{}", self.via, self.mode, self.common_args().join(" "), if self.preexisting { " [output path(s) already exist]" } else { "" })
+        format!(
+            "{:?} {:?} {}{}{}",
+            self.via,
+            self.mode,
+            self.common_args().join(" "),
+            if self.preexisting { " [output path(s) already exist]" } else { "" },
+            if self.fault_devfull { " [fault: unwritable path]" } else { "" }
+        )
     }
 
     pub fn nondefault_options(&self) -> usize {
@@ -255,8 +266,19 @@ pub fn invoke(ctx: &Ctx, cli: &str, c: &CliCase, dir: &str) -> Result<RunOut, St
         }
     }
     if let Mode::Batch { fault_at: Some(k), .. } = &c.mode {
-        // injected fault: a directory where sample k must be written
-        std::fs::create_dir_all(format!("{}/{}.pkl", outdir, k)).map_err(|e| e.to_string())?;
+        if c.fault_devfull && std::path::Path::new("/dev/full").exists() {
+            // injected fault: sample k can be opened but every write to it fails
+            std::fs::create_dir_all(&outdir).map_err(|e| e.to_string())?;
+            let _ = std::fs::remove_file(format!("{}/{}.pkl", outdir, k));
+            std::os::unix::fs::symlink("/dev/full", format!("{}/{}.pkl", outdir, k)).map_err(|e| e.to_string())?;
+        } else {
+            // injected fault: a directory where sample k must be written
+            std::fs::create_dir_all(format!("{}/{}.pkl", outdir, k)).map_err(|e| e.to_string())?;
+        }
+    }
+    if matches!(c.mode, Mode::Single) && c.fault_devfull && std::path::Path::new("/dev/full").exists() {
+        let _ = std::fs::remove_file(&outfile);
+        std::os::unix::fs::symlink("/dev/full", &outfile).map_err(|e| e.to_string())?;
     }
     let mut cmd;
     match &c.via {
@@ -368,6 +390,13 @@ pub fn check_cli(ctx: &Ctx, cli: &str, c: &CliCase, idx: usize, st: &mut Stats) 
         st.label(&format!("via={}", via));
         let accept = c.acceptable();
         match &c.mode {
+            Mode::Single if c.fault_devfull && std::path::Path::new("/dev/full").exists() => {
+                st.label("single file with injected write fault (/dev/full)");
+                if ro.status == Some(0) {
+                    return Err(Fail::new(format!("{}:single:fault-ignored", via), format!("{} exited 0 although nothing could be written to the output file", c.brief())));
+                }
+                return Ok(());
+            }
             Mode::Single => {
                 st.label("mode=single");
                 if ro.status != Some(0) {
@@ -504,9 +533,11 @@ pub fn cli_strategy(wrapper: bool) -> BoxedStrategy<CliCase> {
     };
     (
         (proptest::option::weighted(0.6, 0u8..6), proptest::option::weighted(0.9, any::<u64>()), range, names),
-        (rate, any::<bool>(), any::<bool>(), any::<bool>(), mode, proptest::sample::select(vec![1u8, 2, 5, 16]), via, proptest::bool::weighted(0.3), proptest::bool::weighted(0.25)),
+        (rate, any::<bool>(), any::<bool>(), any::<bool>(), mode, proptest::sample::select(vec![1u8, 2, 5, 16]), via, proptest::bool::weighted(0.3), proptest::bool::weighted(0.25), (any::<bool>(), proptest::bool::weighted(0.06))),
     )
-        .prop_map(|((protocol, seed, (min, max), mutators), (rate, u, e, b, mode, rayon_threads, via, short_opts, preexisting))| CliCase {
+        .prop_map(|((protocol, seed, (min, max), mutators), (rate, u, e, b, mode, rayon_threads, via, short_opts, preexisting, (fault_devfull, single_fault)))| {
+            let single = mode_is_single(&mode);
+            CliCase {
             protocol,
             seed,
             min,
@@ -520,9 +551,17 @@ pub fn cli_strategy(wrapper: bool) -> BoxedStrategy<CliCase> {
             rayon_threads,
             via,
             short_opts,
-            preexisting,
+            // in batch mode this selects the kind of the injected fault (if any); in single-file mode a
+            // small share of the cases write to an unwritable path
+            fault_devfull: if single { single_fault } else { fault_devfull },
+            preexisting: preexisting && !(single && single_fault),
+            }
         })
         .boxed()
+}
+
+fn mode_is_single(m: &Mode) -> bool {
+    matches!(m, Mode::Single)
 }
 
 /// materialise `n` values of a strategy deterministically
@@ -637,12 +676,21 @@ pub fn run_python(ctx: &Ctx, pkg_parent: &str, seqs: &[PySeq]) -> Result<Vec<Vec
     let v: Vec<serde_json::Value> = seqs.iter().map(|s| s.to_driver_json()).collect();
     std::fs::write(&path, serde_json::to_string(&v).unwrap()).map_err(|e| e.to_string())?;
     let py = std::env::var("VERIF_PYTHON_VT").unwrap_or_else(|_| "python3-vt".to_string());
-    let out = Command::new(&py).arg(format!("{}/py/pydriver.py", ctx.verif_dir)).arg(pkg_parent).arg(&path).output().map_err(|e| format!("cannot run {}: {}", py, e))?;
-    let _ = std::fs::remove_file(&path);
-    if !out.status.success() {
-        return Err(format!("pydriver failed: {}", String::from_utf8_lossy(&out.stderr).chars().take(600).collect::<String>()));
+    let mut last_err = String::new();
+    // one retry: a failure of the driver process itself says nothing about the bindings
+    for _attempt in 0..2 {
+        let out = Command::new(&py).arg(format!("{}/py/pydriver.py", ctx.verif_dir)).arg(pkg_parent).arg(&path).output().map_err(|e| format!("cannot run {}: {}", py, e))?;
+        if out.status.success() {
+            let _ = std::fs::remove_file(&path);
+            return serde_json::from_slice(&out.stdout).map_err(|e| format!("pydriver output: {}", e));
+        }
+        let err = String::from_utf8_lossy(&out.stderr).to_string();
+        // the end of a traceback names the exception
+        let tail: String = err.chars().rev().take(700).collect::<Vec<_>>().into_iter().rev().collect();
+        last_err = format!("pydriver failed ({}): ...{}", out.status, tail.replace('\n', " | "));
     }
-    serde_json::from_slice(&out.stdout).map_err(|e| format!("pydriver output: {}", e))
+    let _ = std::fs::remove_file(&path);
+    Err(last_err)
 }
 
 pub fn judge_python(seq: &PySeq, got: &[String]) -> Result<bool, Fail> {
